@@ -147,6 +147,9 @@ class Protocol(metaclass=InlineDocstring):
         ]
         return '\n'.join(res)
 
+    def __call__(self):
+        return self._proto
+
     def __iter__(self):
         return iter(proto_to_files(self._proto))
 
